@@ -4,7 +4,7 @@ import ast
 from ..core.model import AnchorError, ClassInfo, FuncInfo
 from ..core.cfg import walk_shallow, cfg_of
 from ..core.facts import U, atoms_of
-from ..engine import fn_name, kwarg, local_defs, returns_of, stmts_in
+from ..engine import argn, fn_name, kwarg, local_defs, returns_of, stmts_in
 from ..kinds.taint import tainted_returns, n_returns
 
 EXPLANATION = (
@@ -39,7 +39,7 @@ def _len_constraints_from_asserts(ctx, cls: ClassInfo, param_names):
             lenvars = {}
             for st in walk_shallow(init.node):
                 if isinstance(st, ast.Assign) and isinstance(st.value, ast.Call) and fn_name(st.value) == "len" \
-                        and st.value.args and U(st.value.args[0]) in param_names:
+                        and st.value.args and U(argn(st.value, 0)) in param_names:
                     lenvars[U(st.targets[0])] = True
             for st in walk_shallow(init.node):
                 if isinstance(st, ast.Assert):
@@ -117,15 +117,15 @@ def s1(ctx, rep):
     dv = None
     for st in loop.body:
         if isinstance(st, ast.Assert) and isinstance(st.test, ast.Call) and fn_name(st.test) == "isinstance" \
-                and U(st.test.args[1]) == "Domain":
-            dv = U(st.test.args[0])
+                and U(argn(st.test, 1)) == "Domain":
+            dv = U(argn(st.test, 0))
     if dv is None:
         raise AnchorError("dispatch: `assert isinstance(hp_range, Domain)` not found")
     lenvars = {}
     for st in stmts_in(loop.body):
         if isinstance(st, ast.Assign) and isinstance(st.value, ast.Call) and fn_name(st.value) == "len" and st.value.args \
-                and U(st.value.args[0]).startswith(dv + "."):
-            lenvars[U(st.targets[0])] = U(st.value.args[0])[len(dv) + 1:]
+                and U(argn(st.value, 0)).startswith(dv + "."):
+            lenvars[U(st.targets[0])] = U(argn(st.value, 0))[len(dv) + 1:]
 
     def encoder_of(e):
         r = P.resolve_expr_static(f.module, e, None) if isinstance(e, (ast.Name, ast.Attribute)) else None
@@ -138,10 +138,10 @@ def s1(ctx, rep):
         parts = t.values if isinstance(t, ast.BoolOp) and isinstance(t.op, ast.And) else [t]
         static, rest = None, []
         for p_ in parts:
-            if isinstance(p_, ast.Call) and fn_name(p_) == "isinstance" and U(p_.args[0]) == dv:
-                k = P.resolve_expr_static(f.module, p_.args[1], None)
+            if isinstance(p_, ast.Call) and fn_name(p_) == "isinstance" and U(argn(p_, 0)) == dv:
+                k = P.resolve_expr_static(f.module, argn(p_, 1), None)
                 if not isinstance(k, ClassInfo):
-                    raise AnchorError(f"dispatch: isinstance against unknown class {U(p_.args[1])}")
+                    raise AnchorError(f"dispatch: isinstance against unknown class {U(argn(p_, 1))}")
                 val = k in P.mro(D)
                 static = val if static is None else (static and val)
             else:
@@ -232,7 +232,7 @@ def _is_clip(bound_words):
     def f(c):
         if fn_name(c) != "clip" or len(c.args) < 3:
             return False
-        s = U(c.args[1]) + " " + U(c.args[2])
+        s = U(argn(c, 1)) + " " + U(argn(c, 2))
         return all(any(w in s for w in alt) for alt in bound_words)
     return f
 
@@ -335,8 +335,8 @@ def _json_protocol(ctx):
                                 if side[:1] in "'\"":
                                     rspecial[ast.literal_eval(side)] = k
         for x in walk_shallow(f.node):
-            if isinstance(x, ast.Call) and fn_name(x) == "getattr" and len(x.args) >= 2 and isinstance(x.args[1], ast.BinOp) \
-                    and isinstance(x.args[1].op, ast.Add) and isinstance(x.args[1].left, ast.Constant) and x.args[1].left.value == "_":
+            if isinstance(x, ast.Call) and fn_name(x) == "getattr" and len(x.args) >= 2 and isinstance(argn(x, 1), ast.BinOp) \
+                    and isinstance(argn(x, 1).op, ast.Add) and isinstance(argn(x, 1).left, ast.Constant) and argn(x, 1).left.value == "_":
                 fallback = True
     if not fallback and not rspecial:
         raise AnchorError("config_space: the code that resolves 'sampler_cls' back to a sampler class is not recognised")
@@ -365,8 +365,8 @@ def s3(ctx, rep):
     for k in concrete:
         for m in k.methods.values():
             for x in walk_shallow(m.node):
-                if isinstance(x, ast.Call) and fn_name(x) == "set_sampler" and x.args and isinstance(x.args[0], ast.Call):
-                    sc = x.args[0].func
+                if isinstance(x, ast.Call) and fn_name(x) == "set_sampler" and x.args and isinstance(argn(x, 0), ast.Call):
+                    sc = argn(x, 0).func
                     r = None
                     if isinstance(sc, ast.Attribute) and isinstance(sc.value, ast.Name) and sc.value.id == "self":
                         for kk in P.mro(k):
@@ -461,7 +461,7 @@ def s4(ctx, rep):
     for pred in ("is_log_space", "is_reverse_log_space"):
         hit = [c for c in walk_shallow(a.node) if isinstance(c, ast.Compare) and len(c.ops) == 1 and isinstance(c.ops[0], ast.Eq)
                and isinstance(c.left, ast.Call) and isinstance(c.comparators[0], ast.Call) and fn_name(c.left) == pred
-               and fn_name(c.comparators[0]) == pred and U(c.left.args[0]) != U(c.comparators[0].args[0])]
+               and fn_name(c.comparators[0]) == pred and U(argn(c.left, 0)) != U(argn(c.comparators[0], 0))]
         ok = ok and len(hit) == 1
     rep.put(ok, "S4", "agreement", "_assert_sub_config_space compares the predicates get_scaling dispatches on", a, None, "")
 
@@ -478,7 +478,7 @@ def _rounded(f, e, depth=0):
         if n in ROUNDERS:
             return True
         if n in ("clip", "float", "minimum", "maximum", "min", "max", "asarray", "array") and e.args:
-            return _rounded(f, e.args[0], depth + 1)
+            return _rounded(f, argn(e, 0), depth + 1)
         return False
     if isinstance(e, ast.Name):
         ds = [d for d in local_defs(f, e.id) if not isinstance(d, tuple)]
@@ -497,7 +497,7 @@ def s5(ctx, rep):
         ints = [x for x in walk_shallow(f.node) if isinstance(x, ast.Call) and isinstance(x.func, ast.Name) and x.func.id == "int" and x.args]
         if not ints:
             raise AnchorError(f"{f.short}: no int() conversion found any more")
-        bad = [x for x in ints if not _rounded(f, x.args[0])]
+        bad = [x for x in ints if not _rounded(f, argn(x, 0))]
         rep.put(not bad, "S5", "sibling", f"{f.short}: int() only of a rounded value", f, bad[0] if bad else None,
                 f"{len(ints)} conversion(s) through {ROUNDERS[:2]}",
                 f"`{U(bad[0]) if bad else ''}` converts by truncation, while the sibling implementations round half-to-even: the decoder "
